@@ -472,20 +472,26 @@ func genHistCase(f *Fam, r *Rng, k int) (Case, bool) {
 		x = gXdisc(r, len(fp.Ps)-1)
 	}
 	if f.Gp != nil {
-		for _, ab := range f.Gp(fp, x, fn) {
+		for _, ab := range f.Gp(fp, x, sfFn(fn)) {
 			if v := specialGammaP(ab[0], ab[1]); math.IsNaN(v) || math.IsInf(v, 0) {
 				fn = "LogPdf"
 			}
 		}
 	}
 	obs := call(h.d, fn, ad.NewReal64(0.5), x)
-	for try := 0; try < 6 && fn == "LogPdf" && obs.Kind != "val" && !f.Discrete; try++ {
-		// exp overflow in binary64 (not modelled over R): strictly inside the support a value is expected
+	for try := 0; try < 6 && (fn == "LogPdf" || fn == "Pdf") && !f.Discrete; try++ {
+		// exp overflow in binary64 (not modelled over R): strictly inside the support a finite LogPdf is expected
 		if lo, hi := support(f.Name, fp); !(x > lo && x < hi) {
+			break
+		}
+		if call(h.d, "LogPdf", ad.NewReal64(0.5), x).Kind == "val" {
 			break
 		}
 		x = f.X(r, fp)
 		obs = call(h.d, fn, ad.NewReal64(0.5), x)
+	}
+	if lo, hi := support(f.Name, fp); fn == "Pdf" && !f.Discrete && x > lo && x < hi && call(h.d, "LogPdf", ad.NewReal64(0.5), x).Kind != "val" {
+		return Case{}, false
 	}
 	return Case{Fam: f.Name, Fn: fn, P: p, X: x, Obs: obs, Class: "history:" + obs.Kind, Ops: h.done, FP: &fp}, true
 }
